@@ -156,6 +156,12 @@ def run_task(P, task, prop, tier, out):
                 if r.exc is not None:
                     vc = smt.build_vc("c17", s.fork(), z3.BoolVal(raised_by_f))
                     record(out, prop, fi.qualname, "raises:only-if-function-raises", p, variant, vc, tier)
+                    if cls == "CachedFcn":
+                        # a call that raised leaves the cache describing the last successful call
+                        o1, o0 = s.obj(w), pre.obj(w)
+                        keep = all(o1.fields.get(k) is o0.fields.get(k) for k in ("lastArgs", "lastKwds", "lastReturn"))
+                        vc = smt.build_vc("c17", s.fork(), z3.BoolVal(bool(keep)))
+                        record(out, prop, fi.qualname, "raises:cache-unchanged", p, variant, vc, tier)
                     continue
                 goal = (r.v.t == uf_o(e, d)) if isinstance(r.v, VOpq) and r.v.t.sort() == core.Opq else z3.BoolVal(False)
                 vc = smt.build_vc("c17", s.fork(), goal)
